@@ -7,15 +7,22 @@ the constant baseext, point.MarshalBinary (extToBytes) and point.UnmarshalBinary
 hypothesis on the group.  What is left as assumption is not code: SHA-512 (an arbitrary function `H` here) and, for the
 alteration clause, the hash events named in `single_alteration_cases`.
 
-Scope note: `codeGrp.smul n` is the code (`geScalarMult` on the 32 little-endian bytes of n) for n < 2^255 — the
-documented precondition `a[31] <= 127` of geScalarMult/geScalarMultBase; every scalar the theorems below feed it is
-below ℓ < 2^253 or is the caller's x, k (kyber scalars are reduced).  `Mul(s, nil)` uses geScalarMultBase, which equals
-geScalarMult on the base point (`mul_base_eq`, with the whole table of const.go checked by the kernel).
+Scope note (round 5, after fix /repo ec5317f): `codeGrp.smul n` is the code (`geScalarMult` on the 32 little-endian bytes
+of n) for n < 2^255 — the contract `a[31] <= 127` of the window recoding — and the mathematical n • P above.  kyber scalars
+are NOT always reduced (`scalar.UnmarshalBinary` stores any 32 bytes — the fact F5 rests on), and `Sign` hands the raw
+private scalar to `Mul(private, nil)`.  Before the fix that multiplication was wrong for a[31] ≥ 0x88 (review 5-F, finding 2:
+the signature was rejected by both verifiers under the key the same `Mul` returns).  The repaired `point.Mul` reduces such a
+scalar with the translated scReduce first (`Ge.mulScalar`), and `point_mul_any_scalar` / `code_key_any_scalar` prove that
+for EVERY 32-byte scalar `Mul(s, nil)` is (leNat s)•B = `codeGrp.smul (leNat s) codeGrp.base`: so `sign_verifies_code`
+(stated for every x : ℕ) is about the code for every 32-byte private scalar (`sign_verifies_code_bytes`).  The other
+scalars the theorems feed `smul` are below ℓ < 2^253 (k: Pick, h: SetBytes, S: canonical).  `Mul(s, nil)` uses
+geScalarMultBase, which equals geScalarMult on the base point (`mul_base_eq`, the whole table of const.go checked by the kernel).
 -/
 import DosModel.Props.C20Compose
 import DosModel.Proofs.GeCodeFacts
 import DosModel.Proofs.GeScalarMultBase
 import DosModel.Proofs.GeNatTableFull
+import DosModel.Proofs.GeMulGuard
 
 set_option exponentiation.threshold 600
 
@@ -97,5 +104,42 @@ theorem mul_base_eq (a : Bytes) (hlen : a.length = 32) (h31 : (a.getD 31 0).toNa
     absPt (geScalarMultBase a) = leNat a • basePt ∧ absPt (geScalarMult a baseExt) = leNat a • basePt :=
   ⟨absPt_of_good (geScalarMultBase_spec (fun i j hi hj => baseTable_ok i j hi hj) a hlen h31),
     absPt_of_good (geScalarMult_spec a hlen h31 baseExt_good)⟩
+
+/-- **`point.Mul` for EVERY 32-byte scalar** (repaired code, fix ec5317f): the scalar handed to the window recoding
+(`mulScalar`: the caller's bytes when a[31] ≤ 127, else scReduce of them) has 32 bytes, top byte ≤ 127 and the same
+value modulo ℓ; `Mul(s, nil)` represents (leNat s)•B, `Mul(s, A)` represents (leNat s)•A for every A with ℓ•A = 0 and
+(leNat s mod ℓ)•A when a[31] > 127 in general -/
+theorem point_mul_any_scalar (a : Bytes) (hlen : a.length = 32) :
+    ((mulScalar a).length = 32 ∧ ((mulScalar a).getD 31 0).toNat ≤ 127 ∧ leNat (mulScalar a) % ell = leNat a % ell
+      ∧ ((a.getD 31 0).toNat ≤ 127 → mulScalar a = a)
+      ∧ (127 < (a.getD 31 0).toNat → leNat (mulScalar a) = leNat a % ell))
+    ∧ GoodExt (ptMul a none) (leNat a • basePt)
+    ∧ (∀ (q : Ext) (Q : Pt), GoodExt q Q → GoodExt (ptMul a (some q)) (leNat (mulScalar a) • Q))
+    ∧ (∀ (q : Ext) (Q : Pt), GoodExt q Q → ell • Q = 0 → GoodExt (ptMul a (some q)) (leNat a • Q)) :=
+  ⟨mulScalar_spec a hlen,
+    ptMul_spec_any (fun i j hi hj => baseTable_ok i j hi hj) ell_smul_base a hlen⟩
+
+/-- the scalar 11…11 ff (a[31] = 0xff, the review's witness) is outside the contract and is reduced -/
+example : 127 < ((natLE 32 (2 ^ 256 - 1)).getD 31 0).toNat := by decide
+example : GoodExt (ptMul (natLE 32 (2 ^ 256 - 1)) none) ((2 ^ 256 - 1) • basePt) := by
+  have h := (point_mul_any_scalar (natLE 32 (2 ^ 256 - 1)) (natLE_length _ _)).2.1
+  rwa [leNat_natLE_of_lt 32 _ (by norm_num)] at h
+
+/-- the public key `Sign` derives with the code, `Mul(private, nil)`, IS `codeGrp.smul x codeGrp.base` for every
+32-byte private scalar — also the unreduced ones, where `codeGrp.smul` is defined mathematically -/
+theorem code_key_any_scalar (a : Bytes) (hlen : a.length = 32) :
+    absPt (ptMul a none) = codeGrp.smul (leNat a) codeGrp.base := by
+  rw [codeGrp_is_lawful.smul_eq, codeGrp_base]
+  exact absPt_of_good (point_mul_any_scalar a hlen).2.1
+
+/-- **completeness + interoperability for every 32-byte private scalar, reduced or not**: with the key the code
+derives (`Mul(private, nil)`), a signature made by `Sign` is accepted by `Verify` and by the RFC 8032 verifier -/
+theorem sign_verifies_code_bytes (H : Bytes → Bytes) (a : Bytes) (hlen : a.length = 32) (k : ℕ) (msg : Bytes) :
+    verify codeGrp H (absPt (ptMul a none)) msg (sign codeGrp H (leNat a) k msg) = .ok ()
+    ∧ verifyStd codeGrp H (codeGrp.enc (absPt (ptMul a none))) msg (sign codeGrp H (leNat a) k msg) = true := by
+  rw [code_key_any_scalar a hlen]
+  exact sign_verifies_code H (leNat a) k msg
+
+example : (natLE 32 (2 ^ 256 - 1)).length = 32 := natLE_length _ _
 
 end Dos.Props.C20Lawful
